@@ -28,7 +28,7 @@ def run(ctx, R, tier):
     c06.prev(F, R)
     c06.set_unconditional(F, R, rule='B.C17.set')
     from ..enginea import run_singular_only
-    run_singular_only(R, F, lambda fn: 'value::Mapping' in fn or 'modulator::' in fn, floor=3)
+    run_singular_only(R, F, lambda fn: 'value::Mapping' in fn or 'modulator::' in fn, floor=2)
 
 
 def once(F, R):
